@@ -1,0 +1,28 @@
+//go:build verif
+
+// Read-only accessors for the verification harness (built only with -tags verif).
+// They expose the SIZES of the per-stream tables so that recorded executions can be
+// validated against the specification's state; they never change behaviour.
+
+package hessian
+
+// VerifEncoderState returns the number of class definitions sent, of entries in the
+// reference table, and of reference ordinals handed out on the encoder's current stream.
+func VerifEncoderState(e *Encoder) (defs, refs, ordinals int) {
+	return len(e.clsDefList), len(e.refMap), e.refCount
+}
+
+// VerifDecoderState returns the number of class definitions read, of type names read in
+// type position, and of containers registered for back-references on the decoder's stream.
+func VerifDecoderState(d *Decoder) (defs, types, refs int) {
+	return len(d.clsDefList), len(d.typList), len(d.refList)
+}
+
+// VerifSerializerParts returns the encoder and decoder a serializer is composed of.
+func VerifSerializerParts(s Serializer) (*Encoder, *Decoder) {
+	gh, ok := s.(*goHessian)
+	if !ok {
+		return nil, nil
+	}
+	return gh.encoder, gh.decoder
+}
